@@ -7,7 +7,7 @@ Reusable predicates.
 import enum
 import operator
 from collections.abc import Sequence
-from dataclasses import dataclass
+from dataclasses import dataclass, field
 from typing import Optional
 
 from .safe import safe_issubclass
@@ -54,7 +54,7 @@ class IsAssignablePredicate:
     """
 
     pattern_value: Value
-    ctx: CanAssignContext
+    ctx: CanAssignContext = field(repr=False)
     positive_only: bool
     runtime_check: bool = False
     """Whether the predicate stands for a runtime ``isinstance()`` check, to which
@@ -158,7 +158,7 @@ class EqualsPredicate:
     """Predicate that filters out values that are not equal to pattern_val."""
 
     pattern_val: object
-    ctx: CanAssignContext
+    ctx: CanAssignContext = field(repr=False)
     use_is: bool = False
 
     def __call__(self, value: Value, positive: bool) -> Optional[Value]:
@@ -205,7 +205,7 @@ class InPredicate:
 
     pattern_vals: Sequence[object]
     pattern_type: type
-    ctx: CanAssignContext
+    ctx: CanAssignContext = field(repr=False)
 
     def __call__(self, value: Value, positive: bool) -> Optional[Value]:
         inner_value = unannotate(value)
